@@ -413,9 +413,12 @@ def segment_group(p, q):
 
 
 def plane_group(p, n):
+    # in-plane vectors reduced to coprime integers: all alternative support points stay within the bounded domain of the
+    # property (an un-reduced cofactor image of a normal put support points ~7e4 away under pose P4, where the offset of the
+    # plane cannot be computed to 10 digits - the harness, not the library, had left the domain)
     u = next(e for e in E if not X.is_zero(X.cross(n, e)))
-    v = X.cross(n, u)
-    w = X.cross(n, v)
+    v = X.clear(X.cross(X.clear(n), u))
+    w = X.clear(X.cross(X.clear(n), v))
     reps = [('Plane/PN', p, n, 'float')]
     for k in KS[1:]:
         reps.append(('Plane/PN', p, X.scal(k, n), 'float'))
